@@ -14,6 +14,9 @@ PLAIN_WORDS = [
     "ls", "-l", "--opt=val", "1e5x", "a.b/c", "..", ".", "/usr/bin", "~", "~/x", "*.py", "x=1", "a,b", "a:b", "+x", "%d", "^a", "grep", "wakka", "ñandú", "日本", "µ-law", "--enc=µ", "ﬁle.txt", "Ǆx", "ª1", "-", "--", "2", "3.5", "0x1f", "a+b", "a*b", "@", "a@b", "|", "&", ";", "<", ">", "2>", ">>", "a|b", "a;b", "x<y", "echo", "hello_world", "file.txt", "1>2", "C:", "k=v,w", "-9", "**", "//", "->", "==", "<=", ":=", "a-b-c", "_", "__x__", "e", "E5", "1_000", "07", "a..b", "...",
 ]
 QUOTED = ['"a b"', "'q'", '"it\'s"', "'--x y'", '""', "r'\\d'", '"ü"', "'''t q'''"]
+# quoted words are passed verbatim, never evaluated as Python literals: spellings the string-literal evaluator would
+# reject or warn about (escapes, bytes/str mixes), as a shell user writes them
+QUOTED += ['"C:\\Users\\new"', '"\\xZ"', "'\\N{nope}'", '"\\d+"', 'b"a"', "u'x'", 'b"é"', "'\\u12'", 'B"\\xff"', "rb'\\w'"]
 METHODS = {
     ("$(", ")"): "subproc_captured",
     ("$[", "]"): "subproc_uncaptured",
